@@ -7,8 +7,8 @@ CONSTANTS
   MemberMenu = {{"a1", "a2"}, {"a2", "a3"}}
   MinDur = 1
   MaxDur = 3
-  Period = 1
-  CreatePeriod = 2
+  PeriodSet = {1}
+  CreateSet = {2}
   FeeSet = {1}
   DtSet = {1}
   LimitSet = {1, 2}
